@@ -1623,6 +1623,8 @@ class Reaction(Object):
                     num = factor
                 met_id += compartment
                 try:
+                    if model is None:
+                        raise KeyError(met_id)
                     met = model.metabolites.get_by_id(met_id)
                 except KeyError:
                     if verbose:
